@@ -354,7 +354,14 @@ def given_exception_matches(err, exc) -> bool:
         return False
     if not isclass(err):
         err = type(err)
-    return issubclass(err, exc)
+    if isinstance(exc, tuple):
+        return any(given_exception_matches(err, handler) for handler in exc)
+    if not isclass(exc):
+        raise TypeError("catching classes that do not inherit from BaseException is not allowed")
+    # Like CPython (PyType_IsSubtype), look at the MRO only: `issubclass` would ask
+    # `__subclasscheck__` of the handler's metaclass, e.g., for virtual subclasses
+    # registered with an abstract base class, which an `except` clause does not catch.
+    return any(base is exc for base in err.__mro__)
 
 
 def string_distance(string1: str, string2: str) -> float:
